@@ -81,7 +81,12 @@ func genC15(t *rapid.T) *C15Case {
 		probeFirst()
 		c.EndStep = add(rig.Step{Op: "logout"})
 		if rapid.Bool().Draw(t, "between") {
-			add(rig.Step{Op: "in", In: g.heartbeat("")})
+			if rapid.Bool().Draw(t, "betweenResend") {
+				// the peer asks for a resend of everything instead of answering: the Logout must not go out again
+				add(rig.Step{Op: "in", In: g.resend(1, 0)})
+			} else {
+				add(rig.Step{Op: "in", In: g.heartbeat("")})
+			}
 		}
 		if rapid.Bool().Draw(t, "wait") {
 			add(rig.Step{Op: "advance", Dt: rapid.Int64Range(1, 5e9).Draw(t, "waitDt")})
@@ -122,7 +127,11 @@ func genC15(t *rapid.T) *C15Case {
 			if off > 0 {
 				if rapid.Bool().Draw(t, "traffic") && off > 2 {
 					add(rig.Step{Op: "advance", Dt: int64(off / 2)})
-					add(rig.Step{Op: "in", In: g.heartbeat("")}) // other traffic must not end the wait
+					if rapid.Bool().Draw(t, "trafficResend") {
+						add(rig.Step{Op: "in", In: g.resend(1, 0)}) // nor may it bring the Logout out again
+					} else {
+						add(rig.Step{Op: "in", In: g.heartbeat("")}) // other traffic must not end the wait
+					}
 					add(rig.Step{Op: "advance", Dt: int64(off - off/2)})
 				} else {
 					add(rig.Step{Op: "advance", Dt: int64(off)})
@@ -225,6 +234,22 @@ func checkC15(c *C15Case, rec *evid.Rec) (vs []pbt.Violation) {
 			vs = append(vs, pbt.V("answer-did-not-cancel", "Stop() at %v, close timeout %v: the peer's Logout arrived at %v but the context was cancelled only at %v", end.At, timeout, want, got))
 		case got > want:
 			vs = append(vs, pbt.V("deadline-missed", "Stop() at %v, close timeout %v, no answer in time: context cancelled at %v instead of %v", end.At, timeout, got, want))
+		}
+	}
+	// whatever the peer sends between the local Logout and its answer, the Logout goes out once
+	if c.Ending != "peer-logout" {
+		last := len(c.Steps)
+		if c.AnswerStep > c.EndStep {
+			last = c.AnswerStep
+		}
+		for i := c.EndStep + 1; i < last; i++ {
+			if n := logouts(tr.Steps[i].Out); n > 0 {
+				vs = append(vs, pbt.V("logout-sent-again", "step %d (%s) after the local %s brought %d more Logout message(s) onto the wire:%s", i, showStep(&c.Steps[i]), c.Ending, n, showOut(tr.Steps[i])))
+				break
+			}
+			if c.Steps[i].Op == "in" && c.Steps[i].In.Type == rig.TResendRequest {
+				rec.Hist("resend-request-while-logout-pending")
+			}
 		}
 	}
 	nontrivial := c.Ending != "stop" || (c.AnswerStep >= 0 && tr.Steps[c.AnswerStep].At < end.At+timeout)
